@@ -179,4 +179,39 @@ def mayBeDrifted (f : Facts) : Bool :=
   f.launched && (hashDiffersUnderSameVersion f.poolHash f.poolVersion f.claimHash f.claimVersion ||
     !readable f.sels f.labels || !labelsSatisfy f.sels f.labels || f.instanceGone || f.providerDrift)
 
+/-! ### Freshly created NodeClaims
+
+  "A NodeClaim freshly created from a NodePool … is not reported Drifted" and "never self-inflicted": the hash a NodeClaim
+  carries stands for the template it was created from.  For a NodeClaim whose creation is part of the observed history we
+  know that template (`created`), so a differing hash is a cause for drift only if the NodePool's template has changed
+  since in a way that is not "must hash equal" (reordering / non-drifting fields only, or no change at all).  For a
+  NodeClaim that existed before the history its annotations are all we know: they are taken at face value.
+
+  The NodePool's hash is read from its annotation, which the hash controller brings up to date after every edit.  While
+  the annotation is behind the template (`annotationStale`) the two clauses of the property pull in opposite directions
+  for a NodeClaim created in that window — its hash does differ from the NodePool's annotation under the same hash
+  version — and no verdict is given: the property is read for NodePools the hash controller has caught up with (the
+  standing assumption recorded in manifest/C15.json). -/
+
+/-- is "its hash differs under the same hash version" a cause that is not self-inflicted? -/
+def hashCause (created : Option Pool) (current : Pool) (annotationStale : Bool) : Bool :=
+  match created with
+  | none => true
+  | some p0 => annotationStale || fingerprintVerdict p0 current != .mustEqual
+
+/-- `mayBeDrifted` for a NodeClaim whose creation was observed -/
+def mayBeDriftedFresh (created : Option Pool) (current : Pool) (annotationStale : Bool) (f : Facts) : Bool :=
+  f.launched && ((hashDiffersUnderSameVersion f.poolHash f.poolVersion f.claimHash f.claimVersion && hashCause created current annotationStale) ||
+    !readable f.sels f.labels || !labelsSatisfy f.sels f.labels || f.instanceGone || f.providerDrift)
+
+/-- what a NodeClaim must carry right after it was created from a NodePool whose stored template hashes to
+    `templateHash`: that hash (not whatever the NodePool's annotation says at that moment) and the current hash version -/
+def stampedFromTemplate (templateHash : String) (currentVersion : String) (claimHash claimVersion : Option String) : Bool :=
+  claimHash == some templateHash && claimVersion == some currentVersion
+
+theorem mayBeDriftedFresh_none (current : Pool) (stale : Bool) (f : Facts) :
+    mayBeDriftedFresh none current stale f = mayBeDrifted f := by
+  unfold mayBeDriftedFresh mayBeDrifted hashCause
+  simp
+
 end Karp.Spec.DriftSpec
